@@ -203,9 +203,9 @@ func checkFormat(c *Ctx, meaning bool) error {
 	c.Cov["cli_executions"] = cli
 	c.Cov["exhaustive"] = false
 	if meaning {
-		c.Cov["rule"] = fmt.Sprintf("files of MC_Format (all files of <= %d lines over 41 line shapes, 1/%d sampled, plus %d random files of up to %d lines); each is formatted by the real command and must equal Bytes(Fmt(file)) of the spec, for which TLC proves that only white space changed (MeaningKept); `regex generate` on the bytes before and after formatting must print the same regex or fail alike; non-trivial = at least two different line kinds", lines, keepMod, simNum, simDepth)
+		c.Cov["rule"] = fmt.Sprintf("files of MC_Format (all files of <= %d lines over 42 line shapes, 1/%d sampled, plus %d random files of up to %d lines); each is formatted by the real command and must equal Bytes(Fmt(file)) of the spec, for which TLC proves that only white space changed (MeaningKept); `regex generate` on the bytes before and after formatting must print the same regex or fail alike; non-trivial = at least two different line kinds", lines, keepMod, simNum, simDepth)
 	} else {
-		c.Cov["rule"] = fmt.Sprintf("files of MC_Format (all files of <= %d lines over 41 line shapes, 1/%d sampled, plus %d random files of up to %d lines); history check --check / format / format / --check on the real command: bytes must equal Bytes(Fmt(file)), second format changes nothing, --check never writes and fails exactly when the spec says; non-trivial = formatting changes the file, fails, or the file is empty", lines, keepMod, simNum, simDepth)
+		c.Cov["rule"] = fmt.Sprintf("files of MC_Format (all files of <= %d lines over 42 line shapes, 1/%d sampled, plus %d random files of up to %d lines); history check --check / format / format / --check on the real command: bytes must equal Bytes(Fmt(file)), second format changes nothing, --check never writes and fails exactly when the spec says; non-trivial = formatting changes the file, fails, or the file is empty", lines, keepMod, simNum, simDepth)
 	}
 	c.Assumptions = append(c.Assumptions, "most files are formatted in batches with --all (C08 checks that --all equals single invocations); a sample and all failing files use the single-file command")
 	c.Summary = fmt.Sprintf("theorem_states=%d files=%d cli=%d", th.Distinct, len(cases), cli)
